@@ -321,6 +321,7 @@ func iosSpaces(ctx *core.Ctx) []*space {
 		iosIntfSpace(),
 		iosCryptoSpace(),
 		iosEditSpace(),
+		iosSpellSpace(),
 		iosRawBlocksSpace("raw-blocks", c02Lines, 5, 3),
 		noiseSpace("IOS"),
 		corpusSpace("IOS"),
@@ -348,4 +349,42 @@ func init() {
 			Bounds:      map[string]any{"quick": "acl len<=3 over 6 lines, len<=4 over 5 lines, log variants len<=4", "thorough": "acl len<=4 over 8 lines"},
 		}
 	}, 170*time.Second, 45*time.Minute)
+}
+
+// IOS spellings: what the device prints, what a (hand-written) target may
+// say for the same entry, and a target with another value.  IOS masks are
+// wildcards: "X 0.0.0.0" is a host, "X 255.255.255.255" is any.
+var iosSpellings = [][3]string{
+	{"permit ip host 10.1.1.1 any", "permit ip 10.1.1.1 0.0.0.0 any", "permit ip 10.1.1.2 0.0.0.0 any"},
+	{"permit ip any host 10.9.9.1", "permit ip 10.5.5.5 255.255.255.255 host 10.9.9.1", "permit ip 10.5.5.0 0.0.0.255 host 10.9.9.1"},
+	{"permit ip host 10.1.1.1 any", "permit ip host 10.1.1.1 0.0.0.0 255.255.255.255", "permit ip host 10.1.1.1 10.7.7.7 0.0.0.0"},
+	{"permit tcp any host 10.9.9.1 eq www", "permit tcp any host 10.9.9.1 eq 80", "permit tcp any host 10.9.9.1 eq 81"},
+	{"permit udp any host 10.9.9.1 eq domain", "permit udp any host 10.9.9.1 eq 53", "permit udp any host 10.9.9.1 eq 54"},
+	{"permit tcp any host 10.9.9.1 range ftp-data ftp", "permit tcp any host 10.9.9.1 range 20 21", "permit tcp any host 10.9.9.1 range 20 22"},
+	{"permit gre any host 10.9.9.1", "permit 47 any host 10.9.9.1", "permit 48 any host 10.9.9.1"},
+	{"permit icmp any host 10.9.9.1 echo", "permit icmp any host 10.9.9.1 8", "permit icmp any host 10.9.9.1 0"},
+}
+
+func iosSpellSpace() *space {
+	n := int64(len(iosSpellings))
+	sp := &space{name: "spell", model: "IOS", n: n * 4}
+	sp.gen = func(i int64) (core.Files, core.Files) {
+		e := iosSpellings[i/4]
+		var a, b string
+		switch i % 4 {
+		case 0: // device spelling vs equal target spelling
+			a, b = e[0], e[1]
+		case 1: // device spelling vs changed value
+			a, b = e[0], e[2]
+		case 2: // target spelling on the device vs equal
+			a, b = e[1], e[1]
+		case 3:
+			a, b = e[1], e[2]
+		}
+		mk := func(line string) string {
+			return "ip access-list extended inside_in\n " + line + "\n deny ip any any\n" + iosIntf("Ethernet0", "10.0.0.1", "ip access-group inside_in in")
+		}
+		return core.Files{Main: mk(a)}, core.Files{Main: mk(b)}
+	}
+	return sp
 }
